@@ -993,6 +993,15 @@ fn chunk_range<T: std::iter::Step + std::ops::Add<u64, Output = T> + std::cmp::O
     })
 }
 
+/// verification hook: makes the private `chunk_range` callable from the harness
+#[cfg(feature = "verif")]
+pub fn verif_chunk_range(
+    range: RangeInclusive<CrsqlDbVersion>,
+    chunk_size: usize,
+) -> Vec<RangeInclusive<CrsqlDbVersion>> {
+    chunk_range(range, chunk_size).collect()
+}
+
 fn encode_sync_msg(
     codec: &mut LengthDelimitedCodec,
     encode_buf: &mut BytesMut,
